@@ -99,7 +99,10 @@ pub fn gen_random(seed: u64, idx: u64) -> Plan {
                 // answers 431 above it: its configuration, not a refusal
                 // the property forbids
                 e.headers.retain(|(n, v)| !(n == "x-long" && v.len() > 8_000));
-                c.h2.push(e.h2(j, r.range(0, 30)));
+                let mut h = e.h2(j, r.range(0, 30));
+                // half of the uploads do not announce their length
+                h.no_length = e.body.is_some() && r.chance(1, 2);
+                c.h2.push(h);
                 c.reqs.push(echo_plan(&e, nonce, true));
             } else {
                 c.steps.push(Step::Send { data: Blob(e.h1_bytes()), completes: Some(j) });
